@@ -71,6 +71,9 @@ for i in range(2000):
 obs.append(('after', sys.argv[-1] == TAG, sys.path[-1] == TAG, math.leak == TAG, shared_mod.counter, shared_mod.items == [TAG], len('abc') == TAG, G == TAG, total))
 ''']
 
+for _v in ("a", "b"):
+    PROGS.append("obs = []\nimport sys\nsys.path = [sys.path[0] + '/variant_%s'] + sys.path\nimport dup_mod\nobs.append(('which', dup_mod.WHO, dup_mod.helper()))\nimport dup_mod as again\nobs.append(again is dup_mod)\n" % _v)
+
 def wrap_program(src):
     """a generator program made to record instead of print (stdout is process-wide)"""
     return "obs = []\ndef print(*a, **k):\n    obs.append(a)\n" + src
@@ -170,6 +173,7 @@ def check(res):
     gen = [wrap_program(s) for s in progs.all_programs(seed, 12)]
     rnd.shuffle(gen)
     programs = PROGS + gen[:(60 if tier == "quick" else 600)]
+    NP = len(PROGS)
     # solo references, one fresh process each batch of distinct programs (each program once, sequentially, its own context)
     ref = {}
     for i in range(len(programs)):
@@ -177,16 +181,16 @@ def check(res):
     # a fresh process per program would be slow: programs observe before they mutate, so a leak from an
     # earlier context of the same process is itself a difference from the pristine observation; the two
     # state-mutating programs get a process of their own
-    for i in (0, 1):
+    for i in range(NP):
         rc1, o1, e1 = run_jobs("impl", programs, [dict(prog=i, tag="T")], 1, False)
         ref[i] = o1[0] if o1 else "NO OUTPUT " + e1[-200:]
-    rc1, o1, e1 = run_jobs("impl", programs, [dict(prog=i, tag="T") for i in range(2, len(programs))], 1, False)
-    for i, o in zip(range(2, len(programs)), o1): ref[i] = o
+    rc1, o1, e1 = run_jobs("impl", programs, [dict(prog=i, tag="T") for i in range(NP, len(programs))], 1, False)
+    for i, o in zip(range(NP, len(programs)), o1): ref[i] = o
     reps = 12 if tier == "quick" else 60
     jobs = []
     for r in range(reps):
-        for i in (0, 1): jobs.append(dict(prog=i, tag="tag%dx%d" % (r, i)))
-    for i in range(2, len(programs)):
+        for i in range(NP): jobs.append(dict(prog=i, tag="tag%dx%d" % (r, i)))
+    for i in range(NP, len(programs)):
         for r in range(2 if tier == "quick" else 6): jobs.append(dict(prog=i, tag="g%dx%d" % (r, i)))
     rnd.shuffle(jobs)
     diffs = []; races = []; crash = None
@@ -206,7 +210,7 @@ def check(res):
     res.oblige("search: %d contexts (%d programs, shared code objects, concurrent compilation, 16 goroutines) under the race detector: observations equal the solo run, no data race; two concurrent REPL sessions keep their outputs apart" % (len(jobs), len(programs)), ok_search,
                (str(diffs[0])[:300] if diffs else "") or (races[0][:400] if races else "") or (crash or "") or (repl_races[0][:400] if repl_races else "") or str(repl_foreign))
     res.coverage.update(evaluations=len(jobs) + nh + 600, distinct_nontrivial=len(programs) + sum(1 for c in cases if c["contexts"] > 1), programs=len(programs),
-        rule="(T) seeded interleaved histories of 3-25 operations (import, set atom, new list, append in place, alias, delete) over 1-3 contexts, two registered Go module implementations with atom/list/dict globals, all slots compared; (search) a program that observes and then tries to mutate %d channels of process-reachable state (type dictionaries by 9 routes, module attributes and constants, builtins, sys.argv/path/stdout, os.environ, source-module globals, class attributes, function defaults), a second state-mutating program, and %d programs of the other properties' generators with print redirected into a per-module list; %d contexts on 16 goroutines, code objects shared, py.Compile called concurrently; every context's observations compared with the same program alone in a fresh process; Go race detector on; two REPL sessions in two contexts x 300 lines" % (len(CHANNELS), len(programs) - 2, len(jobs)),
+        rule="(T) seeded interleaved histories of 3-25 operations (import, set atom, new list, append in place, alias, delete) over 1-3 contexts, two registered Go module implementations with atom/list/dict globals, all slots compared; (search) a program that observes and then tries to mutate %d channels of process-reachable state (type dictionaries by 9 routes, module attributes and constants, builtins, sys.argv/path/stdout, os.environ, source-module globals, class attributes, function defaults), a second state-mutating program, two programs that put different directories holding a module of the same name in front of sys.path, and %d programs of the other properties' generators with print redirected into a per-module list; %d contexts on 16 goroutines, code objects shared, py.Compile called concurrently; every context's observations compared with the same program alone in a fresh process; Go race detector on; two REPL sessions in two contexts x 300 lines" % (len(CHANNELS), len(programs) - 2, len(jobs)),
         samples=[dict(history=cases[0], observed=obs[0] if obs else None)], distribution=dict(histories=nh, contexts_per_history={k: sum(1 for c in cases if c["contexts"] == k) for k in (1, 2, 3)}, jobs=len(jobs), programs=len(programs), race_reports=len(races) + len(repl_races)),
         modelled_not_verified=["VM frame state and Go-level memory safety inside one context (race detector only)", "file objects behind sys.stdout/stdin/stderr are process-wide by design"])
     if diffs:
